@@ -3,6 +3,7 @@
   Runs the executable definitions of `VK.Model.*` (the same definitions the theorems are about).
 -/
 import VK.Model.Codec
+import VK.Model.Transfers
 open Lean VK VK.Codec
 
 def getSTVCfg (j : Json) : D STVCfg := do
@@ -213,6 +214,19 @@ def handle (j : Json) : D Json := do
     let m ← getInt (← field j "m")
     let ω ← getRDOracle j
     pure (jOutcome jStates (boostedRun p m ω))
+  | "fractional_transfer" => do
+    let w ← getNat (← field j "winner")
+    let fpv ← getRat (← field j "fpv")
+    let bs ← getList getBallot (← field j "ballots")
+    let q ← getInt (← field j "threshold")
+    pure (jOutcome jBallots (fractionalTransfer w fpv bs q))
+  | "random_transfer" => do
+    let w ← getNat (← field j "winner")
+    let fpv ← getRat (← field j "fpv")
+    let bs ← getList getBallot (← field j "ballots")
+    let q ← getInt (← field j "threshold")
+    let keep ← getList (getPair getRanking getNat) (fieldD j "keep" .null)
+    pure (jOutcome jBallots (randomTransfer w fpv bs q keep))
   | "pairwise" => do
     let p ← getProfile (← field j "profile")
     let d := pairwiseDict p
